@@ -45,41 +45,41 @@ Theorem C06_truncate_preserves : forall l r, one_line l -> truncate l = Ok r -> 
 Proof. exact truncate_preserves. Qed.
 Print Assumptions C06_truncate_preserves.
 
-(* ... and bounds the part after the tags to MAX_LINE_SIZE (512) characters. *)
+(* ... and bounds the part after the tags to MAX_LINE_SIZE (512) BYTES of UTF-8, for every line,
+   multi-byte text included.  This is the full statement: before the repair of C06.F19
+   (_truncateMsg counted characters) it was proved for ASCII only and refuted on the witness below. *)
+Theorem C06_len_bytes :
+  forall l r, truncate l = Ok r -> (utf8_len (untagged r) <= gen.T06.MAX_LINE_SIZE)%nat.
+Proof. exact truncate_len_bytes. Qed.
+Print Assumptions C06_len_bytes.
+
+(* hence also at most 512 characters *)
 Theorem C06_len_chars :
   forall l r, truncate l = Ok r -> (List.length (untagged r) <= gen.T06.MAX_LINE_SIZE)%nat.
 Proof. exact truncate_len_chars. Qed.
 Print Assumptions C06_len_chars.
 
-(* Full statement:  forall l r, truncate l = Ok r -> utf8_len (untagged r) <= 512.
-   The pinned code violates it (finding F19: characters are counted, not bytes).
-   Proved: it holds for ASCII lines, fails on a multi-byte witness (1010 bytes), and
-   is never worse than four times the limit. *)
-Theorem C06_len_bytes_on_domain :
-  forall l r, ascii l = true -> truncate l = Ok r ->
-  (utf8_len (untagged r) <= gen.T06.MAX_LINE_SIZE)%nat.
-Proof. exact truncate_len_bytes_ascii. Qed.
-Print Assumptions C06_len_bytes_on_domain.
+(* non-vacuity on the old witness of C06.F19 (PRIVMSG #c :<600 x e-acute>): truncated to exactly 512 bytes *)
+Theorem C06_len_bytes_example :
+  exists r, truncate witness_multibyte = Ok r /\ one_lineb r = true /\ utf8_len (untagged r) = 512%nat.
+Proof. exact truncate_multibyte_example. Qed.
+Print Assumptions C06_len_bytes_example.
 
-Theorem C06_len_bytes_refuted :
-  exists l r, one_line l /\ ascii l = false /\ truncate l = Ok r /\ one_line r
-              /\ (List.length (untagged r) <= gen.T06.MAX_LINE_SIZE)%nat
-              /\ (gen.T06.MAX_LINE_SIZE < utf8_len (untagged r))%nat.
-Proof. exact truncate_len_bytes_refuted. Qed.
-Print Assumptions C06_len_bytes_refuted.
-
-Theorem C06_len_bytes_bound :
-  forall l r, truncate l = Ok r -> (utf8_len (untagged r) <= 4 * gen.T06.MAX_LINE_SIZE)%nat.
-Proof. exact truncate_len_bytes_any. Qed.
-Print Assumptions C06_len_bytes_bound.
+(* _truncateMsg fails only through the encoder (lone surrogate: takeMsg is firewalled, the message is logged and
+   dropped -- this closed C06.F22) or a malformed tag part *)
+Theorem C06_truncate_total :
+  forall l tg rest, split_tagpart l = Ok (tg, rest) -> existsb is_surrogate rest = false ->
+  exists r, truncate l = Ok r.
+Proof. exact truncate_surrogate_free. Qed.
+Print Assumptions C06_truncate_total.
 
 (* The whole takeMsg step: a constructor-built message, an optional label, any chain of outFilters
-   that keep the constructor invariant, then _truncateMsg: what the driver gets is one line of
-   at most 512 characters after the tags. *)
+   that keep the constructor invariant, then _truncateMsg under takeMsg's firewall: whatever the driver gets is one line of
+   at most 512 bytes after the tags (hence encodable: a line with a lone surrogate is never handed over). *)
 Theorem C06_take_line :
   forall lbl fs m l, wf_outb m = true -> label_ok lbl = true -> Forall filter_ok fs ->
-  take_line lbl fs m = Some (Ok l) ->
-  one_line l /\ (List.length (untagged l) <= gen.T06.MAX_LINE_SIZE)%nat.
+  take_line lbl fs m = Some l ->
+  one_line l /\ (utf8_len (untagged l) <= gen.T06.MAX_LINE_SIZE)%nat.
 Proof. exact take_line_ok. Qed.
 Print Assumptions C06_take_line.
 
